@@ -33,10 +33,6 @@ BOUNDED_RULE = (
 W = 10
 
 
-class _Budget(BaseException):
-    pass
-
-
 # ----------------------------------------------------------------------------- text material
 def _letters(i):
     return "abcdefghijklmnopqrstuvwxyz"[i % 26]
@@ -116,13 +112,9 @@ def _trim(rows):
     return rows
 
 
-def run_history(ops, width, initial_sections=1):
-    """Run ops on a fresh ANSI output.  Returns dict(ok, step, what, cls, state).
-    Checked after every operation from index `check_from` on."""
-    return _run(ops, width, initial_sections, 0)
-
-
 def _run(ops, width, initial_sections, check_from):
+    """Run ops on `initial_sections` fresh sections of one ANSI output; the screen is compared with the ghost model
+    after every operation from index `check_from` on.  Returns dict(ok, step, what, cls, state)."""
     old = os.environ.get("COLUMNS")
     os.environ["COLUMNS"] = str(width)
     try:
